@@ -223,11 +223,11 @@ func MAC(password, salt []byte, iter int, data []byte) []byte {
 // DER helpers
 // ---------------------------------------------------------------------------
 
-func seq(parts ...[]byte) []byte  { return derref.Element(0x30, bytes.Join(parts, nil)) }
-func set(parts ...[]byte) []byte  { return derref.Element(0x31, bytes.Join(parts, nil)) }
-func octets(b []byte) []byte      { return derref.Element(0x04, b) }
-func explicit0(b []byte) []byte   { return derref.Element(0xA0, b) }
-func integer(v int) []byte        { return derref.Element(0x02, derref.IntegerContent(big.NewInt(int64(v)))) }
+func seq(parts ...[]byte) []byte { return derref.Element(0x30, bytes.Join(parts, nil)) }
+func set(parts ...[]byte) []byte { return derref.Element(0x31, bytes.Join(parts, nil)) }
+func octets(b []byte) []byte     { return derref.Element(0x04, b) }
+func explicit0(b []byte) []byte  { return derref.Element(0xA0, b) }
+func integer(v int) []byte       { return derref.Element(0x02, derref.IntegerContent(big.NewInt(int64(v)))) }
 func oid(arcs []int) []byte {
 	c, ok := derref.OIDContent(arcs)
 	if !ok {
